@@ -412,6 +412,22 @@ def bld_families():
         for dflt in (None, 0):
             S(n, [Field([(i * w, w)], 'u' if w not in NATIVE else 'n') for i in range(k)], dflt, "LONGCHAIN")
             S(n, [Field([(i * w, w)], 'u' if w not in NATIVE else 'n', access=('rw' if i % 3 else 'r')) for i in range(k)], dflt, "LONGCHAIN")
+    # more than 32 / 64 builder steps
+    for n in (33, 65):
+        for dflt in (None, 0):
+            S(n, [Field([(i, 1)], 'b') for i in range(n)], dflt, "LONGCHAIN")
+    S(128, [Field([(i, 1)], 'b') for i in range(128)], None, "LONGCHAIN")
+    # arrays with more than 32 / 64 elements: the step exists, takes the whole array, and the cover counts every element
+    for n, fs in ((64, lambda: [Field([(0, 1)], 'b', arr=(64, 1))]),
+                  (64, lambda: [Field([(0, 1)], 'b', arr=(33, 1)), Field([(33, 31)], 'u')]),
+                  (64, lambda: [Field([(0, 1)], 'b', arr=(33, 1)), Field([(34, 30)], 'u')]),
+                  (100, lambda: [Field([(0, 1)], 'b', arr=(65, 1)), Field([(65, 35)], 'u')]),
+                  (100, lambda: [Field([(0, 3)], 'u', arr=(33, 3), stride_explicit=False), Field([(99, 1)], 'b')]),
+                  (128, lambda: [Field([(0, 1)], 'b', arr=(128, 1))]),
+                  (128, lambda: [Field([(0, 2)], 'u', arr=(64, 2), stride_explicit=False)]),
+                  (128, lambda: [Field([(0, 2)], 'u', arr=(63, 2), stride_explicit=False), Field([(126, 2)], 'u', access='r')])):
+        for dflt in (None, 0):
+            S(n, fs(), dflt, "WIDEARR")
     return out
 
 
@@ -498,7 +514,7 @@ def any_arg(f: Field):
 def c17_structs(tier):
     from .sets import ex_enum, ne_enum
     out = []
-    bases = (8, 12, 32, 128) if tier == 'quick' else (8, 12, 16, 24, 32, 48, 64, 100, 128)
+    bases = (8, 12, 32, 64, 128) if tier == 'quick' else (8, 12, 16, 24, 32, 48, 64, 100, 128)
     for n in bases:
         kinds = []
         kinds.append(("bool", lambda: Field([(1, 1)], 'b')))
@@ -515,6 +531,16 @@ def c17_structs(tier):
         kinds.append(("enum_ex_arr", lambda: Field([(0, 2)], 'e', enum=ex_enum(2), arr=(2, 2), stride_explicit=False)))
         kinds.append(("nested", lambda: Field([(0, 4)], 'c', inner_n=4)))
         kinds.append(("nested_opt8", lambda: Field([(0, 8)], 'o', enum=ne_enum(8))))
+        if n >= 64:
+            kinds.append(("arr_bool33", lambda: Field([(0, 1)], 'b', arr=(33, 1))))
+            kinds.append(("arr_bool64", lambda: Field([(0, 1)], 'b', arr=(64, 1), stride_explicit=False)))
+            kinds.append(("arr_u2_32", lambda: Field([(0, 2)], 'u', arr=(32, 2))))
+        if n >= 100:
+            kinds.append(("arr_bool65", lambda: Field([(0, 1)], 'b', arr=(65, 1))))
+            kinds.append(("arr_u3_33", lambda: Field([(0, 3)], 'u', arr=(33, 3), stride_explicit=False)))
+        if n == 128:
+            kinds.append(("arr_bool128", lambda: Field([(0, 1)], 'b', arr=(128, 1))))
+            kinds.append(("arr_opt_40", lambda: Field([(0, 3)], 'o', enum=ne_enum(3), arr=(40, 3))))
         if n >= 32:
             kinds.append(("u16hi", lambda: Field([(n - 16, 16)], 'n')))
             kinds.append(("full", lambda: Field([(0, n)], 'n' if n in NATIVE else 'u')))
